@@ -311,6 +311,14 @@ def _c01_literals():
             want = [('eq-decided-early', 'false 0'), ('eq-reaches-it', 'false 1'), ('pcmp-decided-early', 'Some(Less) 0'),
                     ('pcmp-reaches-it', 'Some(Less) 1'), ('cmp-decided-early', 'Greater 0'), ('cmp-reaches-it', 'Greater 1')]
             out.append(((head % tl).replace('::derive_ex::', '') + ' ' + decl + '   [a field after the deciding one is not compared: its `by` function is not called]', src, want))
+    # a key written by a `macro_rules!` macro: an `$m:expr` fragment is ONE operand (`$ % (2 + 2)`, not `($ % 2) + 2`)
+    for head, text in (('#[::derive_ex::derive_ex(PartialEq, Eq, PartialOrd, Ord)]', '#[derive_ex(PartialEq, Eq, PartialOrd, Ord)]'),
+                       ('#[derive(::derive_ex::Ex)] #[derive_ex(PartialEq, Eq, PartialOrd, Ord)]', '#[derive(Ex)] #[derive_ex(PartialEq, Eq, PartialOrd, Ord)]')):
+        decl = 'pub struct $name(#[ord(key = $d % $m)] pub u8);'
+        src = 'macro_rules! keyed { ($d:tt, $name:ident, $m:expr) => { %s\n%s }; }\nkeyed!($, X, 2 + 2);\n' % (head, decl) + \
+            'pub fn run() { println!("@ID@\\tfragment-key\\t{} {:?} {:?}", X(2) == X(0), X(2).partial_cmp(&X(0)), X(6).cmp(&X(2))); }'
+        out.append(('macro_rules! keyed { ($d:tt, $name:ident, $m:expr) => { %s %s } }  keyed!($, X, 2 + 2);   [compared by $ %% (2 + 2)]' % (text, decl),
+                    src, [('fragment-key', 'false Some(Greater) Equal')]))
     return out
 
 
